@@ -20,7 +20,7 @@ namespace SlipVerif.Equality
 
 /-- representation of a number: what `type-of` reports; irrelevant for every predicate but `eq`. -/
 inductive NumRep where
-  | fixnum | bignum | ratio | single | double
+  | fixnum | bignum | ratio | single | double | long
   deriving DecidableEq, Repr
 
 inductive Obj where
